@@ -526,7 +526,9 @@ func shareablePkg(pkg *ssa.Package) bool {
 	if !strings.Contains(first, ".") {
 		return true // standard library
 	}
-	for _, pre := range []string{"github.com/openconfig/goyang/", "github.com/openconfig/gnmi/", "google.golang.org/", "github.com/golang/protobuf", "github.com/openconfig/ygot/proto/", "github.com/kylelemons/", "github.com/derekparker/"} {
+	for _, pre := range []string{"github.com/openconfig/goyang/", "github.com/openconfig/gnmi/", "google.golang.org/", "github.com/golang/protobuf", "github.com/openconfig/ygot/proto/", "github.com/kylelemons/", "github.com/derekparker/",
+		// generated packages: enum tables and the unzipped schema are immutable after init
+		"github.com/openconfig/ygot/zz_verif_gen/", "github.com/openconfig/ygot/integration_tests/schemaops/"} {
 		if strings.HasPrefix(pp, pre) {
 			return true
 		}
@@ -598,9 +600,6 @@ var initDenyPrefixes = []string{
 	"google.golang.org/protobuf", "github.com/openconfig/gnmi/proto", "github.com/golang/protobuf",
 	"github.com/openconfig/ygot/proto", "google.golang.org/grpc", "google.golang.org/genproto",
 	"github.com/golang/glog", "github.com/openconfig/gribi",
-	// generated packages: their init() only unzips the embedded schema (gzip + JSON),
-	// which is outside what the engine executes; the enum tables are plain variables.
-	"github.com/openconfig/ygot/zz_verif_gen/", "github.com/openconfig/ygot/integration_tests/schemaops/",
 }
 
 func (e *Engine) funcsEncoded() []string {
